@@ -162,9 +162,9 @@ def check_render(recipe, coefs, const, env):
 @st.composite
 def lp_envs(draw):
     ns = draw(st.integers(0, 3))
-    snames = draw(st.lists(st.sampled_from(gen.SCALAR_NAMES), min_size=ns, max_size=ns, unique=True))
+    snames = draw(st.lists(st.sampled_from(gen.TINY_POOLS["scalars"] if gen.TINY else gen.SCALAR_NAMES), min_size=ns, max_size=ns, unique=True))
     nv = draw(st.integers(0 if ns else 1, 2))
-    vnames = draw(st.lists(st.sampled_from(gen.VECTOR_NAMES), min_size=nv, max_size=nv, unique=True))
+    vnames = draw(st.lists(st.sampled_from(gen.TINY_POOLS["vectors"] if gen.TINY else gen.VECTOR_NAMES), min_size=nv, max_size=nv, unique=True))
     nm = draw(st.integers(0, 1)) if (ns + nv) < 4 else 0
 
     def bnd():
@@ -420,11 +420,12 @@ def cvx_models(draw, allow_infeasible=False, allow_nonquadratic=True, max_n=5, c
     is *solved for* so that the KKT conditions hold at the drawn x*.  Strict convexity makes x* the unique
     global optimum and f* = f(x*) is known in closed form."""
     ns = draw(st.integers(0, 3))
-    snames = draw(st.lists(st.sampled_from(gen.SCALAR_NAMES), min_size=ns, max_size=ns, unique=True))
+    snames = draw(st.lists(st.sampled_from(gen.TINY_POOLS["scalars"] if gen.TINY else gen.SCALAR_NAMES), min_size=ns, max_size=ns, unique=True))
     nv = draw(st.integers(0 if ns else 1, 1))
     env = {"scalars": [{"name": nm} for nm in snames], "vectors": [], "matrices": [], "params": [], "views": {}}
     if nv:
-        env["vectors"].append({"name": draw(st.sampled_from(gen.VECTOR_NAMES)), "n": draw(st.integers(1, max(1, max_n - ns)))})
+        env["vectors"].append({"name": draw(st.sampled_from(gen.TINY_POOLS["vectors"] if gen.TINY else gen.VECTOR_NAMES)),
+                               "n": draw(st.integers(1, max(1, max_n - ns)))})
     names = sorted(all_var_names(env), key=natural_key)
     n = len(names)
     xs = [draw(st.integers(-8, 8)) / 4.0 for _ in range(n)]
